@@ -9,6 +9,7 @@ import ImmuModel.Merkle.AHTree
 import ImmuModel.Merkle.HTree
 import ImmuModel.Merkle.Proofs.InclSound
 import ImmuModel.Merkle.Proofs.Roots
+import ImmuModel.Merkle.Proofs.ConsSound
 import ImmuModel.Merkle.Proofs.HTreeProofs
 import ImmuModel.Merkle.MthLemmas
 
@@ -93,6 +94,20 @@ theorem aht_rollback (mh : MH D) (xs ys : List Bytes) (t t' : AHT D) (m : Nat)
     (hr : AHT.resetSize t m = some t') :
     AHT.appendAll mh t' ys = AHT.appendAll mh AHT.empty (xs.take m ++ ys) :=
   aht_reset_append mh xs ys t t' m ht hm hr
+
+/-- **Consistency soundness.** If `VerifyConsistency` accepts `(i, j, r1, r2)` and `r2` really
+is the reference root of the `j` leaves `ys`, then `r1` is the reference root of the first `i`
+of them, for every pair of sizes and every (adversarial) proof — or a collision is exhibited.
+(False before the repair 22ec930, e.g. proof(5,6) accepted for i=4.) -/
+theorem consistency_sound (mh : MH D) (p : List D) (i j : Nat) (r1 : D) (ys : List D)
+    (hlen : ys.length = j) (hv : verifyConsistency mh p i j r1 (mth mh ys) = true) :
+    r1 = mth mh (ys.take i) ∨ Coll mh :=
+  verifyConsistency_sound mh p i j r1 ys hlen hv
+
+/-- Same size: acceptance means the two claimed roots are equal (no collision alternative). -/
+theorem consistency_same_size (mh : MH D) (p : List D) (i : Nat) (r1 r2 : D)
+    (hv : verifyConsistency mh p i i r1 r2 = true) : r1 = r2 :=
+  verifyConsistency_sound_eq mh p i r1 r2 hv
 
 /-- **Entry-tree inclusion soundness (membership).** An accepted entry proof against the true
 entry-tree root proves that the digest is one of the transaction's entry digests, whatever
